@@ -61,6 +61,13 @@ class Module:
             self.tree = ast.parse(src, filename=rel)
         except SyntaxError as e:  # pragma: no cover
             raise AnalysisError(f"cannot parse {rel}: {e}")
+        self.denamed = 0
+        if not os.environ.get("VERIF_NO_DENAME"):
+            from sa.dename import dename
+            self.denamed = dename(self.tree, rel)
+        if not os.environ.get("VERIF_NO_CANON"):
+            from sa.canon import canonicalise
+            self.tree = canonicalise(self.tree)
         self.parents: dict[ast.AST, ast.AST] = {}
         for n in ast.walk(self.tree):
             for c in ast.iter_child_nodes(n):
